@@ -70,6 +70,9 @@ func cmdReplicas(args []string) {
 					}
 					mu.Unlock()
 					for h := 1; h < len(c.Hashes); h++ {
+						if dir := os.Getenv("VERIF_DUMP_RESULTS"); dir != "" { // debugging aid: the full result strings
+							os.WriteFile(filepath.Join(dir, fmt.Sprintf("%s-%s-%s-%d.txt", s.ID, *tag, rep, h)), []byte(c.Results[h]), 0o644)
+						}
 						rd := sha256.Sum256([]byte(c.Results[h]))
 						ln := repLine{Kind: "Rep", Ev: map[string]any{"schedule": s.ID, "replica": *tag + "/" + rep, "restarted": rep == "C", "h": h,
 							"hash": fmt.Sprintf("%x", c.Hashes[h]), "results": fmt.Sprintf("%x", rd[:8])}}
